@@ -7,6 +7,7 @@
 """
 List field
 """
+import copy
 import inspect
 from typing import Any, Iterable, List, Optional, Type, Union
 
@@ -175,6 +176,8 @@ class ListField(Field):
     def __setdefault__(self, cfg: Config) -> None:
         default = self.default
         if isinstance(default, list):
+            # every configuration gets its own copy of the default, nested containers included
+            default = copy.deepcopy(default)
             if self.field:
                 default = ListProxy(cfg, self, default)
             else:
